@@ -2,8 +2,10 @@ SPECIFICATION Spec
 CONSTANTS
   MaxXfers = 3
   MaxMid = 2
+  Sources <- BothSrc
   Emit = TRUE
 INVARIANT WF
 INVARIANT Content
+INVARIANT RequireHonoured
 INVARIANT EmitState
 CHECK_DEADLOCK FALSE
